@@ -34,9 +34,9 @@ def _root_.CtyModel.Rfn.lenOk : Rfn → Bool
 
 /-- what `Value.Refine()` establishes and every builder call keeps: the receiver is
 unmarked; if it is unknown, the work-in-progress refinement is of the kind its
-type calls for; length bounds are not negative -/
+type calls for -/
 def Builder.wf (b : Builder) : Bool :=
-  !b.orig.v.isMarked && (b.orig.isKnown || kindOk b.orig.ty b.wip) && b.wip.lenOk
+  !b.orig.v.isMarked && (b.orig.isKnown || kindOk b.orig.ty b.wip)
 
 /-- `b'` is `b` with another work-in-progress refinement -/
 def Builder.sameBase (b b' : Builder) : Prop := b'.orig = b.orig ∧ b'.marks = b.marks
